@@ -16,7 +16,8 @@ pub enum Fault {
     Eio { at_call: u32, sticky: bool },
     /// the first read that would deliver the byte at `off` (or beyond) fails with EIO (sticky)
     EioAtOffset { off: u64 },
-    /// the first read that would deliver the byte at `off` (or beyond) fails once; the retry succeeds
+    /// the read that would deliver the byte at `off` fails once (bytes before it are delivered first); the retry
+    /// succeeds; a reader that seeks over the byte never meets the fault
     EioOnceAtOffset { off: u64 },
     /// stored data ends at `at` (torn file / crash during the writer's life)
     Eof { at: u64 },
@@ -277,8 +278,9 @@ impl Read for SimReader {
                 self.stats.shorts += 1;
             }
             if let Some(off) = self.once_off {
-                if self.pos + k > off {
-                    if self.pos >= off {
+                // only a read that covers the byte itself: a reader that seeks over it never meets the bad sector
+                if self.pos <= off && self.pos + k > off {
+                    if self.pos == off {
                         self.once_off = None;
                         self.stats.fired.push("eio");
                         self.stats.fired.push("eio_once_at_offset");
